@@ -11,6 +11,16 @@ VERIF = os.path.dirname(os.path.dirname(os.path.abspath(__file__)))
 corpus = json.loads(open(os.path.join(VERIF, 'selftest', 'corpus.json')).read(), strict=False)
 want = set(sys.argv[1:])
 env = dict(os.environ, GOFLAGS='-mod=mod', GOPROXY='off', GOSUMDB='off', GOTOOLCHAIN='local')
+# changes written by independent sub-agents (seeded/<name>/patch.diff + meta.json): each must be reported
+import glob
+for d in sorted(glob.glob(os.path.join(VERIF, 'seeded', '*'))):
+    try:
+        meta = json.load(open(os.path.join(d, 'meta.json')))
+    except Exception:
+        continue
+    if os.path.exists(os.path.join(d, 'MISSED')):
+        continue  # recorded as not detected (see DESIGN.md): kept for reference, not a canary
+    corpus.append({'id': 'seeded-' + os.path.basename(d), 'prop': meta['property'], 'patch': os.path.join(d, 'patch.diff'), 'expect': '.'})
 bad = 0
 ran = 0
 for e in corpus:
@@ -20,13 +30,20 @@ for e in corpus:
     try:
         scratch = os.path.join(tmp, 'repo')
         shutil.copytree('/repo', scratch, ignore=shutil.ignore_patterns('.git'))
-        path = os.path.join(scratch, e['file'])
-        src = open(path).read()
-        if src.count(e['old']) != 1:
-            print(f"SELFTEST-STALE {e['id']}: pattern occurs {src.count(e['old'])} times in {e['file']}")
-            bad += 1
-            continue
-        open(path, 'w').write(src.replace(e['old'], e['new']))
+        if 'patch' in e:
+            a = subprocess.run(['git', 'apply', e['patch']], cwd=scratch, capture_output=True, text=True)
+            if a.returncode != 0:
+                print(f"SELFTEST-STALE {e['id']}: patch does not apply: {a.stderr[:200]}")
+                bad += 1
+                continue
+        else:
+            path = os.path.join(scratch, e['file'])
+            src = open(path).read()
+            if src.count(e['old']) != 1:
+                print(f"SELFTEST-STALE {e['id']}: pattern occurs {src.count(e['old'])} times in {e['file']}")
+                bad += 1
+                continue
+            open(path, 'w').write(src.replace(e['old'], e['new']))
         b = subprocess.run(['go', 'build', './...'], cwd=scratch, env=env, capture_output=True, text=True)
         if b.returncode != 0:
             print(f"SELFTEST-NOBUILD {e['id']}: {b.stderr[:300]}")
